@@ -2,7 +2,7 @@
 """Evaluate behaviour-preserving changes (independent refactorings) against the quick check of their property, in memory.
 Every verdict other than 'silent' is a false alarm of the machinery.
 
-usage: sweep_refactors.py <root> [Cxx ...]         root = /tmp/refacN (candidates) or /verif/refactors (recorded)
+usage: sweep_refactors.py <root> [--cross] [Cxx ...]         root = /tmp/refacN (candidates) or /verif/refactors (recorded)
 """
 import concurrent.futures as cf
 import contextlib
@@ -49,7 +49,8 @@ def one(job):
 
 def main():
     root = sys.argv[1]
-    only = set(sys.argv[2:])
+    cross = '--cross' in sys.argv
+    only = set(a for a in sys.argv[2:] if a != '--cross')
     jobs = []
     for d in sorted(glob.glob(os.path.join(root, '*'))):
         base = os.path.basename(d)
@@ -60,6 +61,10 @@ def main():
             jobs.append((m.group(1), base, os.path.join(d, 'patch.diff')))
         for k in sorted(glob.glob(os.path.join(d, '*', 'patch.diff'))):
             jobs.append((m.group(1), '%s/%s' % (base, os.path.basename(os.path.dirname(k))), k))
+    if cross:
+        # every change under every property (a yanny refactor must be silent for C01, C02 and C03 alike)
+        props = ['C%02d' % i for i in range(1, 21) if i != 14]
+        jobs = [(p, '%s@%s' % (name, p), patch) for (own, name, patch) in jobs for p in props if p != own]
     with cf.ProcessPoolExecutor(16) as ex:
         out = list(ex.map(one, jobs))
     tally = {}
